@@ -42,10 +42,10 @@ ASSUMPTIONS = [
     "nest written from the TF padding rules); tolerance per output element "
     "1e-5*A + 1e-6 where A is the same expression evaluated with absolute "
     "values (A >= |ref|, equal to it without cancellation); measured on "
-    "the unchanged tree: max error 0.031 of that tolerance",
+    "the unchanged tree (2 x 3256 cases): max error 0.020 of that tolerance (0.077 of the plain 1e-5*max|ref|+1e-6)",
     "get_folded_weights() vs closed form: 2e-6*|value| + 1e-37 for the "
     "kernel, 2e-6*(|gamma/sqrt(var+eps)|*(|bias|+|mean|)+|beta|) + 1e-37 for "
-    "the bias (float32 rsqrt and three roundings; measured max 0.12 of it)",
+    "the bias (float32 rsqrt, itself up to 2.2e-7 off, and three roundings; measured max 0.10 of it)",
     "quantized reference applies freshly built quantizers (same string) to "
     "get_folded_weights() once that is validated against the closed form "
     "(avoids rounding-breakpoint flips from a 1-ulp different folded "
@@ -62,7 +62,7 @@ ASSUMPTIONS = [
     "depthwise layers use equal row/column strides; dilation only with "
     "stride 1 (TensorFlow / Keras constraints)",
 ]
-BUDGET_S = {"quick": 55, "thorough": 840}
+BUDGET_S = {"quick": 50, "thorough": 840}
 REQUIRED_LABELS = {
     "quick": ["lattice", "hyp_layer", "hyp_unfold", "hyp_quantize", "cls:conv", "cls:dw",
               "mode:ema_stats_folding", "mode:batch_stats_folding",
@@ -543,9 +543,15 @@ def oracle_quantize(case, st):
         fails.append(("quantize_fold", {"clause": "folding_mode", "cls": cls},
                       "%s has %s, config says %s" % (name, ql.folding_mode,
                                                       pl[3])))
+      if bias is not None and not ql.use_bias:
+        fails.append(("quantize_fold", {"clause": "bias_dropped", "cls": cls},
+                      "%s: folded layer has use_bias=False but the conv had "
+                      "a bias" % name))
+        return fails
       G.set_folded_weights(
           ql, cls, kernel,
-          bias if bias is not None else np.zeros((cout,), np.float32),
+          None if not ql.use_bias else
+          (bias if bias is not None else np.zeros((cout,), np.float32)),
           gamma if gamma is not None else np.ones((cout,), np.float32),
           beta if beta is not None else np.zeros((cout,), np.float32),
           mean, var)
@@ -673,7 +679,7 @@ def run(ctx):
     return evaluate(ctx, case, "hyp_" + case["kind"])
 
   strat = G.mixed_case_strategy(ctx.tier)
-  todo = (6400 if ctx.quick else 160000) // ctx.n + 1
+  todo = (6400 if ctx.quick else 60000) // ctx.n + 1
   batch = 80
   i = 0
   while todo > 0 and ctx.time_left() > 0:
